@@ -52,6 +52,8 @@ pub enum ClaimsSpec {
     Probe { bytes: Bytes },
     Json { value: serde_json::Value },
     Reg { claims: RegSpec },
+    /// Json<TypedClaims> built from `seed` (see backend::TypedClaims)
+    Typed { seed: u64 },
     /// `RegisteredClaims::now(ttl)` read from the issuer's simulated clock
     RegNow { ttl_s: u64, ttl_ns: u32, iss: Option<String>, sub: Option<String>, aud: Option<String>, jti: Option<String> },
 }
@@ -63,6 +65,7 @@ impl ClaimsSpec {
             ClaimsSpec::RawC { .. } => PayloadKind::RawC,
             ClaimsSpec::Probe { .. } => PayloadKind::Probe,
             ClaimsSpec::Json { .. } => PayloadKind::Json,
+            ClaimsSpec::Typed { .. } => PayloadKind::Typed,
             ClaimsSpec::Reg { .. } | ClaimsSpec::RegNow { .. } => PayloadKind::Reg,
         }
     }
@@ -267,6 +270,11 @@ pub enum CodecCase {
     FailingEncode { footer: bool, filler: usize },
     /// an application payload that flattens RegisteredClaims next to a catch-all map of its own claims
     Flatten { claims: RegSpec, extra: serde_json::Value },
+    /// Json<T> for an application type whose fields do not all fit a generic JSON value (128-bit integers,
+    /// single-precision floats, enums, tuples, options, nested maps): built from `seed`
+    JsonTyped { seed: u64 },
+    /// Json<Box<RawValue>>: claims kept as the JSON text the application supplied
+    JsonRawText { text: String },
 }
 
 #[derive(Clone, Copy, Debug, PartialEq, Eq, PartialOrd, Ord, Serialize, Deserialize)]
